@@ -147,8 +147,10 @@ func genC15(r *rand.Rand, n int, emit func(string)) {
 			switch r.Intn(6) {
 			case 4, 5:
 				// the same r and s, each half widened with leading zero bytes (still even, still splits in the middle)
-				if kt != opb.Ed25519 {
+				if kt != opb.Ed25519 && r.Intn(2) == 0 {
 					raw = zeroPadHalves(raw, 1+r.Intn(3))
+				} else if kt != opb.Ed25519 {
+					raw = zerosBetweenHalves(raw, pick(r, []int{1, 2, len(raw) / 2}))
 				} else {
 					raw = append(raw, 0)
 				}
@@ -347,5 +349,13 @@ func zeroPadHalves(raw []byte, k int) []byte {
 	out := append([]byte{}, z...)
 	out = append(out, raw[:h]...)
 	out = append(out, z...)
+	return append(out, raw[h:]...)
+}
+
+// zerosBetweenHalves: r, k zero bytes, s - the two halves at the ends of a longer signature
+func zerosBetweenHalves(raw []byte, k int) []byte {
+	h := len(raw) / 2
+	out := append([]byte{}, raw[:h]...)
+	out = append(out, make([]byte, k)...)
 	return append(out, raw[h:]...)
 }
